@@ -1111,6 +1111,10 @@ class ManifestRecursiveLoader:
                     fpath = os.path.join(relpath, mname)
                     if fpath in self.loaded_manifests:
                         continue
+                    # only a regular file can be a Manifest (opening
+                    # e.g. a named pipe would block forever)
+                    if not os.path.isfile(os.path.join(dirpath, mname)):
+                        continue
 
                     # we've just found ourselves a new Manifest,
                     # let's try to load it
